@@ -13,6 +13,7 @@ import (
 
 	"github.com/ipfs/go-graphsync"
 	"github.com/ipfs/go-graphsync/requestmanager/types"
+	"github.com/ipfs/go-graphsync/verifhook"
 )
 
 // BlockReadOpener synchronously loads the next block result
@@ -68,6 +69,7 @@ func (rl *ReconciledLoader) blockReadOpener(lctx linking.LinkContext, link datam
 }
 
 func (rl *ReconciledLoader) loadLocal(lctx linking.LinkContext, link datamodel.Link) types.AsyncLoadResult {
+	verifhook.Yield("rl.loadLocal")
 	stream, err := rl.lsys.StorageReadOpener(lctx, link)
 	if err != nil {
 		return types.AsyncLoadResult{Err: graphsync.RemoteMissingBlockErr{Link: link, Path: lctx.LinkPath}, Local: true}
@@ -84,6 +86,7 @@ func (rl *ReconciledLoader) loadLocal(lctx linking.LinkContext, link datamodel.L
 }
 
 func (rl *ReconciledLoader) loadRemote(lctx linking.LinkContext, link datamodel.Link) ([]byte, error) {
+	verifhook.Yield("rl.loadRemote")
 	rl.lock.Lock()
 	head := rl.remoteQueue.first()
 	buffered := rl.remoteQueue.consume()
